@@ -1148,7 +1148,7 @@ class FnTranslator:
                     return [('assign', ('field', lv, 'size', ('int', 64, False)), ('const', ('int', 64, False), 0))]
             if t[0] == 'mutex':
                 return [('assign', ('field', lv, 'held', ('int', 32, True)), ('const', ('int', 32, True), 0))]
-            if t[0] == 'optional' and not args:
+            if t[0] == 'optional' and (not args or (len(args) == 1 and 'nullopt_t' in node_type(self.strip(args[0])))):
                 self.rule('std::optional: default construction = disengaged')
                 return [('assign', ('field', lv, 'has', ('bool',)), ('const', ('bool',), 0))]
             if t[0] == 'optional' and len(args) == 1 and self.T(args[0]) == t:
@@ -2043,6 +2043,12 @@ class FnTranslator:
             if t[0] == 'optional' and len(args) == 1 and self.T(args[0]) == t:
                 self.rule('std::optional: copy/move construction = copy of flag and payload')
                 return self.expr(args[0])
+            if t[0] == 'optional' and (not args or (len(args) == 1 and 'nullopt_t' in node_type(self.strip(args[0])))):
+                self.rule('std::optional: construction from std::nullopt = disengaged')
+                nm = self.tmp(t)
+                self.pre.append(('decl', nm, t, None))
+                self.pre.append(('assign', ('field', ('var', nm, t), 'has', ('bool',)), ('const', ('bool',), 0)))
+                return ('var', nm, t)
             self.err(n, 'construct expression of %r in scalar context' % (t,))
         if k == 'CXXScalarValueInitExpr' or k == 'ImplicitValueInitExpr':
             return ('const', t, 0)
@@ -2365,6 +2371,18 @@ class FnTranslator:
             return ('cond', ('bin', '<', a, b, ('bool',)), b, a, t)
         if name in ('move', 'forward'):
             return self.expr(args[0]) if is_scalar(t) or t[0] == 'string' else self.lvalue(args[0])
+        if name == 'exchange' and len(args) == 2 and not self.is_repo_decl(callee):
+            self.rule('std::exchange(obj, v): old = obj; obj = v; result old')
+            lv = self.lvalue(args[0])
+            nm = self.tmp(t)
+            self.pre.append(('decl', nm, t, lv))
+            if t[0] == 'optional' and 'nullopt_t' in node_type(self.strip(args[1])):
+                self.pre.append(('assign', ('field', lv, 'has', ('bool',)), ('const', ('bool',), 0)))
+            elif is_scalar(t):
+                self.pre.append(('assign', lv, self.expr(args[1])))
+            else:
+                self.err(n, 'std::exchange on %r' % (t,))
+            return ('var', nm, t)
         if name == 'to_string':
             self.rule('std::to_string -> uninterpreted str_of_*')
             a = self.expr(args[0])
